@@ -163,7 +163,10 @@ class SystemGPGEnvironment:
                     err.decode('utf8', errors='backslashreplace'))
             elif line.startswith(b'[GNUPG:] VALIDSIG'):
                 spl = line.split(b' ')
-                assert len(spl) >= 12
+                if len(spl) < 12:
+                    # truncated or malformed status line
+                    raise OpenPGPUnknownSigFailure(
+                        err.decode('utf8', errors='backslashreplace'))
                 fp = spl[2].decode('utf8')
                 ts = self._parse_gpg_ts(spl[4].decode('utf8'))
                 expts = self._parse_gpg_ts(spl[5].decode('utf8'))
